@@ -43,7 +43,8 @@ def step_st(draw, outcomes=None, cols=None, with_async=True, with_cleanup=False,
         if step["o"] == "convert" and draw(st.booleans()):
             step["o"] = "convert_key"       # a type converter may raise anything (KeyError from a lookup table)
         if step["o"] == "raise" and draw(st.integers(0, 2)) == 0:
-            step["o"] = "raise_timeout"     # any exception type is an error, also TimeoutError
+            # any exception type is an error, also TimeoutError and a plain NotImplementedError
+            step["o"] = draw(st.sampled_from(["raise_timeout", "raise_notimpl"]))
     if with_async and step["o"] not in ("interrupt", "undefined", "convert", "convert_key") and \
             not step["o"].startswith("<") and draw(st.integers(0, 5)) == 0:
         step["a"] = draw(st.sampled_from([True, 2]))    # 2: @async_run_until_complete(timeout=...)
@@ -99,7 +100,7 @@ def outline_st(draw, inherited=False, max_steps=3, outcomes=None, **kw):
             if o == "convert" and draw(st.booleans()):
                 o = "convert_key"
             if o == "raise" and draw(st.integers(0, 2)) == 0:
-                o = "raise_timeout"
+                o = draw(st.sampled_from(["raise_timeout", "raise_notimpl"]))
             cell = {"x": PHRASE[o],
                     tcol: draw(st.sampled_from(TAG_CELLS))}
             rows.append([cell[c] for c in order])
@@ -257,4 +258,7 @@ def program_st(draw, max_features=3, faults=True, cfg=None, peek=True, relog=Fal
                                     draw(st.sampled_from(["Exception", "AssertionError", "AssertionError0", "Exception0"]))]]
         elif f == 1:
             prog["cleanups"] = [{"at": draw(st.integers(0, 10000)), "raises": draw(st.booleans())}]
+            if draw(st.booleans()):
+                # environment.py installs its own handler for cleanup errors (context.on_cleanup_error)
+                prog["cleanup_handler"] = draw(st.sampled_from(["true", "none", "builtin-ignore"]))
     return prog
